@@ -250,3 +250,19 @@ func (f *queuedRSTStreamFrame) send(dest *http2.Framer) error {
 func (f *queuedRSTStreamFrame) String() string {
 	return fmt.Sprintf("RSTStream[id=%d, errCode=%v]", f.streamID, f.errCode)
 }
+
+// queuedSettingsAckFrame is a SETTINGS acknowledgement on its way to the endpoint whose settings
+// it acknowledges. It belongs to the connection (stream 0).
+type queuedSettingsAckFrame struct{}
+
+func (*queuedSettingsAckFrame) StreamID() uint32 {
+	return 0
+}
+
+func (*queuedSettingsAckFrame) flowControlSize() int {
+	return 0
+}
+
+func (*queuedSettingsAckFrame) send(dest *http2.Framer) error {
+	return dest.WriteSettingsAck()
+}
